@@ -194,7 +194,7 @@ func (c *vfakeSeqClient) GetFailOverLogs(vbID uint16) ([]gocbcore.FailoverEntry,
 	if c.foErr != nil {
 		return nil, c.foErr
 	}
-	return []gocbcore.FailoverEntry{{VbUUID: c.failover[vbID], SeqNo: 0}}, nil
+	return []gocbcore.FailoverEntry{{VbUUID: c.failover[vbID], SeqNo: 5}, {VbUUID: c.failover[vbID] ^ 0x5a5a, SeqNo: 0}}, nil
 }
 
 func vLatestInit(cfg *config.Dcp) *offset.OffsetLatestSeqNoInit { return offset.NewOffsetLatestSeqNoInit(cfg) }
